@@ -3,6 +3,7 @@
 //! This module implements the bytecode interpreter that executes compiled bytecode.
 //! It uses a register-based design with up to 256 virtual registers per call frame.
 
+use core::cmp::Ordering;
 use crate::compiler::{BytecodeChunk, Constant, Op, Register};
 use crate::error::{JsError, StackFrame};
 use crate::gc::{Gc, Guard};
@@ -2277,30 +2278,38 @@ impl BytecodeVM {
             }
 
             Op::Lt { dst, left, right } => {
-                let left_val = self.get_reg(left).to_number();
-                let right_val = self.get_reg(right).to_number();
-                self.set_reg(dst, JsValue::Boolean(left_val < right_val));
+                let ordering = self.compare_operands(interp, left, right)?;
+                self.set_reg(dst, JsValue::Boolean(ordering == Some(Ordering::Less)));
                 Ok(OpResult::Continue)
             }
 
             Op::LtEq { dst, left, right } => {
-                let left_val = self.get_reg(left).to_number();
-                let right_val = self.get_reg(right).to_number();
-                self.set_reg(dst, JsValue::Boolean(left_val <= right_val));
+                let ordering = self.compare_operands(interp, left, right)?;
+                self.set_reg(
+                    dst,
+                    JsValue::Boolean(matches!(
+                        ordering,
+                        Some(Ordering::Less | Ordering::Equal)
+                    )),
+                );
                 Ok(OpResult::Continue)
             }
 
             Op::Gt { dst, left, right } => {
-                let left_val = self.get_reg(left).to_number();
-                let right_val = self.get_reg(right).to_number();
-                self.set_reg(dst, JsValue::Boolean(left_val > right_val));
+                let ordering = self.compare_operands(interp, left, right)?;
+                self.set_reg(dst, JsValue::Boolean(ordering == Some(Ordering::Greater)));
                 Ok(OpResult::Continue)
             }
 
             Op::GtEq { dst, left, right } => {
-                let left_val = self.get_reg(left).to_number();
-                let right_val = self.get_reg(right).to_number();
-                self.set_reg(dst, JsValue::Boolean(left_val >= right_val));
+                let ordering = self.compare_operands(interp, left, right)?;
+                self.set_reg(
+                    dst,
+                    JsValue::Boolean(matches!(
+                        ordering,
+                        Some(Ordering::Greater | Ordering::Equal)
+                    )),
+                );
                 Ok(OpResult::Continue)
             }
 
@@ -2308,43 +2317,43 @@ impl BytecodeVM {
             // Bitwise Operations
             // ═══════════════════════════════════════════════════════════════════════════
             Op::BitAnd { dst, left, right } => {
-                let left_val = to_int32(self.get_reg(left).to_number());
-                let right_val = to_int32(self.get_reg(right).to_number());
+                let left_val = to_int32(interp.coerce_to_number(self.get_reg(left))?);
+                let right_val = to_int32(interp.coerce_to_number(self.get_reg(right))?);
                 self.set_reg(dst, JsValue::Number((left_val & right_val) as f64));
                 Ok(OpResult::Continue)
             }
 
             Op::BitOr { dst, left, right } => {
-                let left_val = to_int32(self.get_reg(left).to_number());
-                let right_val = to_int32(self.get_reg(right).to_number());
+                let left_val = to_int32(interp.coerce_to_number(self.get_reg(left))?);
+                let right_val = to_int32(interp.coerce_to_number(self.get_reg(right))?);
                 self.set_reg(dst, JsValue::Number((left_val | right_val) as f64));
                 Ok(OpResult::Continue)
             }
 
             Op::BitXor { dst, left, right } => {
-                let left_val = to_int32(self.get_reg(left).to_number());
-                let right_val = to_int32(self.get_reg(right).to_number());
+                let left_val = to_int32(interp.coerce_to_number(self.get_reg(left))?);
+                let right_val = to_int32(interp.coerce_to_number(self.get_reg(right))?);
                 self.set_reg(dst, JsValue::Number((left_val ^ right_val) as f64));
                 Ok(OpResult::Continue)
             }
 
             Op::LShift { dst, left, right } => {
-                let left_val = to_int32(self.get_reg(left).to_number());
-                let right_val = to_uint32(self.get_reg(right).to_number()) & 0x1F;
+                let left_val = to_int32(interp.coerce_to_number(self.get_reg(left))?);
+                let right_val = to_uint32(interp.coerce_to_number(self.get_reg(right))?) & 0x1F;
                 self.set_reg(dst, JsValue::Number((left_val << right_val) as f64));
                 Ok(OpResult::Continue)
             }
 
             Op::RShift { dst, left, right } => {
-                let left_val = to_int32(self.get_reg(left).to_number());
-                let right_val = to_uint32(self.get_reg(right).to_number()) & 0x1F;
+                let left_val = to_int32(interp.coerce_to_number(self.get_reg(left))?);
+                let right_val = to_uint32(interp.coerce_to_number(self.get_reg(right))?) & 0x1F;
                 self.set_reg(dst, JsValue::Number((left_val >> right_val) as f64));
                 Ok(OpResult::Continue)
             }
 
             Op::URShift { dst, left, right } => {
-                let left_val = to_uint32(self.get_reg(left).to_number());
-                let right_val = to_uint32(self.get_reg(right).to_number()) & 0x1F;
+                let left_val = to_uint32(interp.coerce_to_number(self.get_reg(left))?);
+                let right_val = to_uint32(interp.coerce_to_number(self.get_reg(right))?) & 0x1F;
                 self.set_reg(dst, JsValue::Number((left_val >> right_val) as f64));
                 Ok(OpResult::Continue)
             }
@@ -2477,7 +2486,7 @@ impl BytecodeVM {
             }
 
             Op::BitNot { dst, src } => {
-                let val = to_int32(self.get_reg(src).to_number());
+                let val = to_int32(interp.coerce_to_number(self.get_reg(src))?);
                 self.set_reg(dst, JsValue::Number((!val) as f64));
                 Ok(OpResult::Continue)
             }
@@ -5843,6 +5852,28 @@ impl BytecodeVM {
                 Ok(OpResult::Continue)
             }
         }
+    }
+
+    /// The abstract relational comparison of two registers (ECMA-262 IsLessThan without the
+    /// left-first flag): both operands go through ToPrimitive with hint "number", so objects
+    /// answer with valueOf/toString; two strings compare by UTF-16 code units, everything else
+    /// numerically. `None` means "undefined" (a NaN operand): every relational operator is false.
+    fn compare_operands(
+        &self,
+        interp: &mut Interpreter,
+        left: Register,
+        right: Register,
+    ) -> Result<Option<Ordering>, JsError> {
+        let left_prim = interp.coerce_to_primitive(self.get_reg(left), "number")?;
+        let right_prim = interp.coerce_to_primitive(self.get_reg(right), "number")?;
+        if let (JsValue::String(a), JsValue::String(b)) = (&left_prim, &right_prim) {
+            return Ok(Some(
+                a.as_str().encode_utf16().cmp(b.as_str().encode_utf16()),
+            ));
+        }
+        let left_num = interp.coerce_to_number(&left_prim)?;
+        let right_num = interp.coerce_to_number(&right_prim)?;
+        Ok(left_num.partial_cmp(&right_num))
     }
 
     /// Get a property value from an object, invoking getters if present.
